@@ -41,6 +41,24 @@ def lookups(keys, subs=()):
     return acts
 
 
+def pair_lookups(keys, rnd, limit=14):
+    """two-argument command lines: an argument given by its complete key (short or long), then a word that is a beginning of that
+    argument's long key - which may be the exact key of another argument, ambiguous, or an abbreviation of the first argument
+    itself; and the same pair in the other order.  What a key designates does not depend on what was used before it."""
+    acts = []
+    for s, l in keys:
+        if len(l) < 3:
+            continue
+        first = ["--" + S(l), "1"] if not s or rnd.random() < 0.5 else ["-" + chr(s), "1"]
+        for n in sorted({2, len(l) // 2, len(l) - 1}):
+            if 2 <= n < len(l):
+                w = "--" + S(l[:n]) + "=2"
+                acts.append(eval_action(first + [w], tag={"k": "lookup"}))
+                acts.append(eval_action([w] + first, tag={"k": "lookup"}))
+    rnd.shuffle(acts)
+    return acts[:limit]
+
+
 def sub_key_cfg(keys, abbr, subs):
     """key table in which the arguments at the positions `subs` are sub-groups (each with one flag 'Z' of its own)."""
     cfg = key_cfg(keys, abbr)
@@ -66,7 +84,7 @@ def run(tier):
     blocks = []
     for b in beh:
         keys = [(k["s"], k["l"]) for k in b["keys"]]
-        blocks.append((key_cfg(keys, b["abbr"]), [{"n": "Define", "mode": "handler"}] + lookups(keys)))
+        blocks.append((key_cfg(keys, b["abbr"]), [{"n": "Define", "mode": "handler"}] + lookups(keys) + pair_lookups(keys, rnd, 6)))
     script = os.path.join(c.wd, "replay.ndjson")
     n = write_cases(script, blocks)
     c.notes.append("R: %d key tables of the model defined in the real handler, %d definitions/lookups executed" % (len(blocks), n))
@@ -89,7 +107,7 @@ def run(tier):
             keys.append((s, T(l)))
         for order in ([keys, list(reversed(keys))] + [g.sample(keys, len(keys)) for _ in range(2)]):
             dashes = [g.random() < 0.3 for _ in order]
-            blocks.append((key_cfg(order, g.random() < 0.8, dashes), [{"n": "Define", "mode": "handler"}] + lookups(order)))
+            blocks.append((key_cfg(order, g.random() < 0.8, dashes), [{"n": "Define", "mode": "handler"}] + lookups(order) + pair_lookups(order, g)))
     # T2: the same with one or two of the arguments being sub-groups (Handler::addArgument( key, subHandler, desc)): a key
     # designates at most one argument of the handler whatever kind the arguments are
     # (every rejection is confirmed by TLC runs of its own, and the known finding below rejects most tables with related keys:
